@@ -127,6 +127,34 @@ macro_rules! harness {
             let _ = $body(&inp);
         }
     };
+    ($name:ident, unwind = $u:expr, stubs = focusabs, $body:path) => {
+        #[cfg(kani)]
+        #[kani::proof]
+        #[kani::unwind($u)]
+        #[kani::stub(std::vec::Vec::reserve, $crate::stubs::vec_reserve)]
+        #[kani::stub(std::vec::Vec::push, $crate::stubs::vec_push)]
+        #[kani::stub(std::vec::Vec::with_capacity, $crate::stubs::vec_with_capacity)]
+        #[kani::stub(arimaa_engine_step::action::map_bit_board_to_squares, $crate::stubs::mbts_focus)]
+        #[kani::stub(arimaa_engine_step::zobrist::Zobrist::move_piece, $crate::stubs::zobrist_move_piece_abstract)]
+        pub fn $name() {
+            let inp: $crate::scenario::Inp = kani::any();
+            let _ = $body(&inp);
+        }
+    };
+    ($name:ident, unwind = $u:expr, stubs = lowabs, $body:path) => {
+        #[cfg(kani)]
+        #[kani::proof]
+        #[kani::unwind($u)]
+        #[kani::stub(std::vec::Vec::reserve, $crate::stubs::vec_reserve)]
+        #[kani::stub(std::vec::Vec::push, $crate::stubs::vec_push)]
+        #[kani::stub(std::vec::Vec::with_capacity, $crate::stubs::vec_with_capacity)]
+        #[kani::stub(arimaa_engine_step::action::map_bit_board_to_squares, $crate::stubs::mbts_lowest)]
+        #[kani::stub(arimaa_engine_step::zobrist::Zobrist::move_piece, $crate::stubs::zobrist_move_piece_abstract)]
+        pub fn $name() {
+            let inp: $crate::scenario::Inp = kani::any();
+            let _ = $body(&inp);
+        }
+    };
     ($name:ident, unwind = $u:expr, stubs = lowest, $body:path) => {
         #[cfg(kani)]
         #[kani::proof]
